@@ -25,6 +25,7 @@ type Env struct {
 	bound int // >0 while under a quantifier
 	seen  func(k Val) (string, error)
 	depth int
+	trig  *[]string // triggers collected while compiling the body of the innermost quantifier
 }
 
 func (e *Env) with(name string, v Val) *Env {
@@ -251,10 +252,37 @@ func (env *Env) c(e Expr) Val {
 			n.vars[qv.Name] = Val{T: name, S: s, Ty: ty}
 			bs = append(bs, "("+name+" "+s+")")
 		}
+		var trig []string
+		n.trig = &trig
 		body := n.c(x.Body)
 		q := "exists"
 		if x.Forall {
 			q = "forall"
+		}
+		if len(trig) > 0 && x.Forall {
+			// every bound variable must occur in the pattern set
+			all := true
+			for _, b := range bs {
+				name := strings.Fields(strings.Trim(b, "()"))[0]
+				found := false
+				for _, t := range trig {
+					if strings.Contains(t, name) {
+						found = true
+					}
+				}
+				all = all && found
+			}
+			if all {
+				var pats []string
+				seenP := map[string]bool{}
+				for _, t := range trig {
+					if !seenP[t] {
+						seenP[t] = true
+						pats = append(pats, ":pattern ("+t+")")
+					}
+				}
+				return boolVal("(" + q + " (" + strings.Join(bs, " ") + ") (! " + body.T + " " + strings.Join(pats, " ") + "))")
+			}
 		}
 		return boolVal("(" + q + " (" + strings.Join(bs, " ") + ") " + body.T + ")")
 	case *ELet:
@@ -491,6 +519,14 @@ func (env *Env) call(x *ECall) Val {
 		return mathInt(sx("imin", arg(0).T, arg(1).T))
 	case "max":
 		return mathInt(sx("imax", arg(0).T, arg(1).T))
+	case "anc":
+		// anc(x, q): q is x or one of its ancestors along the declared acyclic parent link
+		xv, qv := arg(0), arg(1)
+		t := vc.ancTerm(env.st, xv, qv.T)
+		if env.trig != nil && env.bound > 0 {
+			*env.trig = append(*env.trig, t)
+		}
+		return boolVal(t)
 	case "mod":
 		return mathInt(sx("mod", arg(0).T, arg(1).T))
 	case "div":
@@ -645,7 +681,7 @@ func (vc *VC) cardFun(ks string) string {
 	name := "card_" + sanitize(ks)
 	if _, ok := vc.decl[name]; !ok {
 		vc.declareFun(name, []string{"(Array " + ks + " Bool)"}, "Int")
-		vc.emit(fmt.Sprintf("(assert (forall ((a (Array %s Bool))) (! (>= (%s a) 0) :pattern ((%s a)))))", ks, name, name))
+		vc.emit(fmt.Sprintf("(assert (forall ((a (Array %s Bool))) (! (and (>= (%s a) 0) (<= (%s a) 4611686018427387904)) :pattern ((%s a)))))", ks, name, name, name))
 		vc.emit(fmt.Sprintf("(assert (= (%s ((as const (Array %s Bool)) false)) 0))", name, ks))
 		vc.emit(fmt.Sprintf("(assert (forall ((a (Array %s Bool)) (k %s)) (! (=> (select a k) (> (%s a) 0)) :pattern ((select a k) (%s a)))))", ks, ks, name, name))
 	}
@@ -668,4 +704,47 @@ func (vc *VC) localVars(st *State, vars map[string]Val, before ssa.Instruction) 
 		ty := a.Type().(*types.Pointer).Elem()
 		vars[n] = Val{T: st.cells[a], S: vc.sortOf(ty), Ty: ty}
 	}
+}
+
+// ancTerm builds inchain(P, x, q) for the parent-link array P of x's type in state st and emits, once per
+// (P, x), the one-level unfolding at x together with the acyclicity facts (a depth function that strictly
+// decreases along the link). Only the link array of the given state is read.
+func (vc *VC) ancTerm(st *State, x Val, q string) string {
+	t := x.Ty
+	if t == nil {
+		cfail("anc(): first argument has no Go type")
+	}
+	if p, ok := t.Underlying().(*types.Pointer); ok {
+		t = p.Elem()
+	}
+	n, ok := types.Unalias(t).(*types.Named)
+	if !ok || n.Obj().Pkg() == nil {
+		cfail("anc(): %v is not a named struct pointer", x.Ty)
+	}
+	key := n.Obj().Pkg().Name() + "." + n.Obj().Name()
+	fld, ok := vc.cs.Chains[key]
+	if !ok {
+		cfail("anc(): no 'chain %s.<field>' declaration", n.Obj().Name())
+	}
+	comp, ok := vc.fieldCompByName(t, fld)
+	if !ok {
+		cfail("target-exists: chain field %s.%s", key, fld)
+	}
+	P := vc.heapGet(st, comp, "(Array Int Int)")
+	in := vc.declareFun("inchain_"+sanitize(key), []string{"(Array Int Int)", "Int", "Int"}, "Bool")
+	dp := vc.declareFun("depth_"+sanitize(key), []string{"(Array Int Int)", "Int"}, "Int")
+	vc.assumedUse["acyclic parent chain "+key+"."+fld] = true
+	if !vc.sumDefs["anc1|"+P] {
+		vc.sumDefs["anc1|"+P] = true
+		vc.emit(fmt.Sprintf("(assert (forall ((a Int) (o Int)) (! (=> (%s %s a o) (and (not (= a 0)) (not (= o 0)) (<= (%s %s o) (%s %s a)))) :pattern ((%s %s a o)))))", in, P, dp, P, dp, P, in, P))
+	}
+	k := "anc2|" + P + "|" + x.T
+	if !vc.sumDefs[k] {
+		vc.sumDefs[k] = true
+		par := sx("select", P, x.T)
+		vc.emit(fmt.Sprintf("(assert (forall ((o Int)) (! (= (%s %s %s o) (and (not (= %s 0)) (or (= o %s) (%s %s %s o)))) :pattern ((%s %s %s o)) :pattern ((%s %s %s o)))))",
+			in, P, x.T, x.T, x.T, in, P, par, in, P, x.T, in, P, par))
+		vc.emit(fmt.Sprintf("(assert (=> (and (not (= %s 0)) (not (= %s 0))) (< (%s %s %s) (%s %s %s))))", x.T, par, dp, P, par, dp, P, x.T))
+	}
+	return sx(in, P, x.T, q)
 }
